@@ -123,12 +123,43 @@ func famConns(w *World) {
 				w.event("op", "%s closes a connection to %s", a.Name, b.Name)
 			}
 		case 7:
-			a.Ch.Peers().Add(b.HostPort)
+			if scnChance(1, 2) {
+				// several goroutines add the same host:port at once
+				k := 2 + scn(2)
+				var adds []func()
+				for i := 0; i < k; i++ {
+					if scnChance(1, 2) {
+						adds = append(adds, func() { a.Ch.Peers().Add(b.HostPort) })
+					} else {
+						adds = append(adds, func() { a.Ch.Peers().GetOrAdd(b.HostPort) })
+					}
+				}
+				w.tasks(adds...)
+				w.probe("C16.concurrent-add")
+			} else {
+				a.Ch.Peers().Add(b.HostPort)
+			}
 			referenced[a.Name][b.HostPort] = true
+			w.mustLeave[a.Name+"/"+b.HostPort] = false
+			w.event("op", "%s adds %s to its peer list", a.Name, b.HostPort)
 		case 8:
-			a.Ch.Peers().Remove(b.HostPort)
-			// stays marked: the property speaks of peers that were unreferenced when their last
-			// connection went away; a later Remove does not by itself evict the peer
+			err := a.Ch.Peers().Remove(b.HostPort)
+			// judged by the library's own list AFTER the Remove returned: a connection still
+			// listed on the peer now is removed later, when no list references the peer
+			hadLive := false
+			if p, ok := a.Ch.RootPeers().Get(b.HostPort); ok {
+				in, out := p.NumConnections()
+				hadLive = in+out > 0
+			}
+			// `referenced` stays marked for the first rule (a Remove does not by itself evict the
+			// peer). The second rule: a peer that still had a live connection when the one list
+			// holding it dropped it loses its last connection LATER, unreferenced, and must then
+			// leave the root list.
+			if err == nil && hadLive {
+				w.mustLeave[a.Name+"/"+b.HostPort] = true
+				w.probe("C16.removed-from-list-while-connected")
+			}
+			w.event("op", "%s removes %s from its peer list: %v (connections still listed on the peer afterwards: %v)", a.Name, b.HostPort, err, hadLive)
 		case 9: // let idle sweeps run
 			sleep(time.Duration(10+scn(60)) * w.Grid)
 		case 10: // concurrent burst of connects in both directions
@@ -338,6 +369,9 @@ func (w *World) checkBookkeeping(alias map[string]*Node, referenced map[string]m
 			for _, c := range p.OutboundConnections {
 				gotOut[hp] = append(gotOut[hp], ck{c.LocalHostPort, c.RemoteHostPort})
 			}
+			if len(p.InboundConnections)+len(p.OutboundConnections) == 0 && w.mustLeave[n.Name+"/"+hp] && w.liveConnections(n, hp) == 0 {
+				w.violate("C16", "unreferenced-peer-kept", "%s, node %s: peer %s was removed from the only peer list that held it while it still had a connection; its last connection is gone now, but it is still in the root list (the library counts %d list references)", when, n.Name, hp, p.SCCount)
+			}
 			// a peer nobody references and that has no connection must have left the root list
 			if len(p.InboundConnections)+len(p.OutboundConnections) == 0 && p.SCCount == 0 && !referenced[n.Name][hp] {
 				if w.hadConnection(n, hp) {
@@ -483,6 +517,27 @@ func sortCk(a []string) []string {
 }
 
 // hadConnection: did node n ever have an established link registered under hp?
+// liveConnections counts the live links of node n that belong to peer hp
+// (announced host:port, or the address dialled).
+func (w *World) liveConnections(n *Node, hp string) int {
+	k := 0
+	for _, l := range w.Net.Links {
+		if l.CutEv != 0 || l.CloseEv[0] != 0 || l.CloseEv[1] != 0 {
+			continue
+		}
+		for side := 0; side < 2; side++ {
+			c := l.A
+			if side == 1 {
+				c = l.B
+			}
+			if c.Owner == n.Name && (w.peerKeyFor(l, side) == hp || (side == 0 && string(l.A.dialled) == hp)) {
+				k++
+			}
+		}
+	}
+	return k
+}
+
 func (w *World) hadConnection(n *Node, hp string) bool {
 	for _, l := range w.Net.Links {
 		for side := 0; side < 2; side++ {
